@@ -198,6 +198,48 @@ def h_concrete(ctx, case):
             _wf_finite(ctx, case, Y, [4, 4, 4])
         Y = teneva.cross(lambda I: np.ones(len(I)), teneva.rand([2, 2, 2], 1, seed=1), nswp=2, dr_min=2, dr_max=2)
         _wf_finite(ctx, case + '_mode2', Y, [2, 2, 2])
+    elif case == 'orthogonalize_zero_rank1':
+        # exactly-zero cores next to rank-1 bonds, every pivot, single steps, adaptive ALS from a zero start
+        bad = 0
+        for Y in ([np.zeros((1, 3, 1)), np.zeros((1, 2, 1)), np.zeros((1, 3, 1))],
+                  [np.ones((1, 3, 1)), np.zeros((1, 2, 1)), np.ones((1, 3, 1))],
+                  [np.ones((1, 2, 2)), np.ones((2, 3, 1)), np.zeros((1, 2, 1))]):
+            n = [G.shape[1] for G in Y]
+            for k in range(len(Y)):
+                for stab in (False, True):
+                    res = teneva.orthogonalize(Y, k, use_stab=stab)
+                    Z = res[0] if stab else res
+                    bad += 0 if (well_formed(Z, n) and all(bool(np.all(np.isfinite(G))) for G in Z)) else 1
+            for i in range(1, len(Y)):
+                Z = teneva.orthogonalize_right(Y, i)
+                bad += 0 if all(bool(np.all(np.isfinite(G))) for G in Z) else 1
+            for i in range(len(Y) - 1):
+                Z = teneva.orthogonalize_left(Y, i)
+                bad += 0 if all(bool(np.all(np.isfinite(G))) for G in Z) else 1
+        ctx.claim(case + '_well_formed_finite', bad == 0)
+    elif case == 'cross_interrupted':
+        # runs cut by the budget / by the objective returning None at every possible point, ranks growing
+        bad = 0
+        for n in ([3, 3, 3], [2, 4], [3, 1, 3]):
+            T = teneva.rand(n, 2, seed=6)
+            for m in range(2, 70, 3):
+                try:
+                    Y = teneva.cross(lambda I: teneva.get_many(T, I), teneva.rand(n, 1, seed=1), m=m, dr_min=1, dr_max=1)
+                    bad += 0 if (well_formed(Y, n) and all(bool(np.all(np.isfinite(G))) for G in Y)) else 1
+                except ValueError as e_:
+                    bad += 1
+            for kcall in range(1, 14):
+                cnt = [0]
+
+                def f(I):
+                    cnt[0] += 1
+                    return None if cnt[0] == kcall else np.ones(len(I))
+                try:
+                    Y = teneva.cross(f, teneva.rand(n, 1, seed=1), nswp=3, dr_min=1, dr_max=2)
+                    bad += 0 if (well_formed(Y, n) and all(bool(np.all(np.isfinite(G))) for G in Y)) else 1
+                except ValueError:
+                    bad += 1
+        ctx.claim(case + '_well_formed_finite', bad == 0)
     elif case == 'als_tiny_lamb':
         # regularisation lost in rounding (or switched off) with rank-deficient local problems
         I = np.array([[0, 0, 1], [1, 1, 0], [0, 0, 1], [1, 0, 0], [0, 1, 1], [0, 0, 1]])
@@ -256,7 +298,7 @@ def instances(tier):
     for dup in (False, True):
         out.append({'func': 'h_als_small', 'params': {'dup': dup}})
     for case in ['cancelling_zero', 'cross_zero', 'cross_const', 'cross_d2_mode1', 'truncate_overranked', 'truncate_zero_generic',
-                 'rank_deficient_generic', 'cross_growth_above_available_rows', 'als_constant_repeated', 'als_tiny_lamb', 'qtt_redundant_mode2', 'anova_constant',
+                 'rank_deficient_generic', 'cross_growth_above_available_rows', 'cross_interrupted', 'orthogonalize_zero_rank1', 'als_constant_repeated', 'als_tiny_lamb', 'qtt_redundant_mode2', 'anova_constant',
                  'cheb_constant']:
         out.append({'func': 'h_concrete', 'params': {'case': case}, 'opts': {'concrete_only': True}})
     return out
